@@ -394,8 +394,44 @@ func isProps(info *types.Info, e ast.Expr) bool {
 		}
 		break
 	}
+	if id, ok := e.(*ast.Ident); ok && propsAliases != nil && propsAliases[info.ObjectOf(id)] {
+		return true
+	}
 	fv := thisField(info, e)
 	return fv != nil && fv.Name() == "properties"
+}
+
+// propsAliases: locals of the method being interpreted that were bound to this.properties (the
+// slice header is copied, the backing array shared): writes through them are writes to the list.
+var propsAliases map[types.Object]bool
+
+// isListIndexExpr: an int expression over the method's index parameters and the length of the
+// list: len(p), len(p) ± k, idx ± k (what a maintainer hoists into a local such as `last`).
+func isListIndexExpr(info *types.Info, e ast.Expr) bool {
+	switch x := e.(type) {
+	case *ast.ParenExpr:
+		return isListIndexExpr(info, x.X)
+	case *ast.BasicLit:
+		return x.Kind == token.INT
+	case *ast.Ident:
+		if v, ok := info.ObjectOf(x).(*types.Var); ok {
+			b, isB := v.Type().Underlying().(*types.Basic)
+			return isB && b.Kind() == types.Int
+		}
+	case *ast.CallExpr:
+		if isIdentNamed(x.Fun, "len") && len(x.Args) == 1 && isProps(info, x.Args[0]) {
+			return true
+		}
+		if sel, ok := x.Fun.(*ast.SelectorExpr); ok && sel.Sel.Name == "Len" && isIdentNamed(sel.X, "this") && len(x.Args) == 0 {
+			return true
+		}
+	case *ast.BinaryExpr:
+		if x.Op == token.ADD || x.Op == token.SUB {
+			_, isLit := x.Y.(*ast.BasicLit)
+			return isLit && isListIndexExpr(info, x.X)
+		}
+	}
+	return false
 }
 
 // goodElement: expr is &Iter{… myIdx: <idx>, parent: this …} (or a local
@@ -441,11 +477,21 @@ func interpretContainerMethod(info *types.Info, fd *ast.FuncDecl, methods map[st
 		if len(env) == 0 {
 			return t
 		}
-		for pn, at := range env {
-			t = regexp.MustCompile(`\b`+regexp.QuoteMeta(pn)+`\b`).ReplaceAllString(t, at)
+		for round := 0; round < 3; round++ {
+			before := t
+			for pn, at := range env {
+				t = regexp.MustCompile(`\b`+regexp.QuoteMeta(pn)+`\b`).ReplaceAllString(t, at)
+			}
+			if t == before {
+				break
+			}
 		}
 		return t
 	}
+	propsAliases = map[types.Object]bool{}
+	defer func() { propsAliases = nil }()
+	pendingTrunc := false                 // a local alias was truncated and not yet stored back
+	elemAt := map[types.Object]string{} // locals holding an element of the list -> the slot it sits in now
 	d := &dirtyState{from: map[string]bool{}, points: map[string]bool{}}
 	returnsError := false
 	if fd.Type.Results != nil && len(fd.Type.Results.List) > 0 {
@@ -455,6 +501,10 @@ func interpretContainerMethod(info *types.Info, fd *ast.FuncDecl, methods map[st
 	}
 	locals := map[types.Object]*ast.CompositeLit{}
 	report := func() {
+		if pendingTrunc {
+			exits = append(exits, "the list was shortened through a local copy of the slice header that is never stored back")
+			return
+		}
 		if !d.empty() {
 			exits = append(exits, d.String())
 		}
@@ -548,6 +598,55 @@ func interpretContainerMethod(info *types.Info, fd *ast.FuncDecl, methods map[st
 						}
 					}
 				}
+				// elems := this.properties   |   last := len(elems) - 1   |   e := elems[i]
+				if s.Tok == token.DEFINE && len(s.Lhs) == len(s.Rhs) {
+					all := true
+					for i := range s.Lhs {
+						id, ok := s.Lhs[i].(*ast.Ident)
+						if !ok {
+							all = false
+							break
+						}
+						r := s.Rhs[i]
+						if pr, ok := r.(*ast.ParenExpr); ok {
+							r = pr.X
+						}
+						switch {
+						case isProps(info, r):
+						case isListIndexExpr(info, r):
+						default:
+							if ix, ok := r.(*ast.IndexExpr); !ok || !isProps(info, ix.X) {
+								all = false
+							}
+						}
+						_ = id
+					}
+					if all {
+						for i := range s.Lhs {
+							id := s.Lhs[i].(*ast.Ident)
+							r := s.Rhs[i]
+							if pr, ok := r.(*ast.ParenExpr); ok {
+								r = pr.X
+							}
+							switch {
+							case isProps(info, r):
+								propsAliases[info.ObjectOf(id)] = true
+								if len(env) == 0 {
+									env = map[string]string{}
+								}
+								env[id.Name] = "this.properties"
+							case isListIndexExpr(info, r):
+								if len(env) == 0 {
+									env = map[string]string{}
+								}
+								env[id.Name] = xs(r)
+							default:
+								elemAt[info.ObjectOf(id)] = xs(r.(*ast.IndexExpr).Index)
+							}
+						}
+						continue
+					}
+				}
 				// n := &Iter{…}
 				if s.Tok == token.DEFINE && len(s.Lhs) == 1 && len(s.Rhs) == 1 {
 					if u, ok := s.Rhs[0].(*ast.UnaryExpr); ok && u.Op == token.AND {
@@ -566,6 +665,13 @@ func interpretContainerMethod(info *types.Info, fd *ast.FuncDecl, methods map[st
 					if ok0 && ok1 && isProps(info, l0.X) && isProps(info, l1.X) {
 						d.points[xs(l0.Index)] = true
 						d.points[xs(l1.Index)] = true
+						for i, l := range []*ast.IndexExpr{l0, l1} {
+							if id, ok := s.Rhs[i].(*ast.Ident); ok {
+								if _, isEl := elemAt[info.ObjectOf(id)]; isEl {
+									elemAt[info.ObjectOf(id)] = xs(l.Index)
+								}
+							}
+						}
 						continue
 					}
 				}
@@ -632,9 +738,29 @@ func interpretContainerMethod(info *types.Info, fd *ast.FuncDecl, methods map[st
 							}
 						}
 						undecided = append(undecided, "unrecognised write to properties: "+xs(rhs))
+					case *ast.Ident:
+						// this.properties = elems: the (possibly shortened) local header is stored back
+						if propsAliases[info.ObjectOf(r)] {
+							if _, lhsIsLocal := lhs.(*ast.Ident); !lhsIsLocal {
+								if pendingTrunc {
+									delete(d.points, "last")
+									pendingTrunc = false
+								}
+								continue
+							}
+						}
+						undecided = append(undecided, "unrecognised write to properties: "+xs(rhs))
 					case *ast.SliceExpr:
 						// truncation p = p[:len(p)-1]
 						if isProps(info, r.X) && r.Low == nil && r.High != nil && xs(r.High) == "len(this.properties) - 1" {
+							if _, lhsIsLocal := lhs.(*ast.Ident); lhsIsLocal {
+								pendingTrunc = true // takes effect when the header is stored back
+								continue
+							}
+							if _, srcIsLocal := r.X.(*ast.Ident); srcIsLocal && pendingTrunc {
+								undecided = append(undecided, "properties re-sliced from a local that was already shortened")
+								continue
+							}
 							delete(d.points, "last")
 							continue
 						}
@@ -656,6 +782,13 @@ func interpretContainerMethod(info *types.Info, fd *ast.FuncDecl, methods map[st
 							d.points["last"] = true // a placeholder before truncation
 							continue
 						}
+						if id, isId := rhs.(*ast.Ident); isId {
+							if _, isEl := elemAt[info.ObjectOf(id)]; isEl {
+								elemAt[info.ObjectOf(id)] = it
+								d.points[it] = true
+								continue
+							}
+						}
 						idx, ok := goodElement(info, rhs, locals)
 						delete(d.points, "detached:"+it) // the detached element is replaced
 						if ok && idx == it {
@@ -669,6 +802,24 @@ func interpretContainerMethod(info *types.Info, fd *ast.FuncDecl, methods map[st
 						continue
 					}
 					if sel, ok := lhs.(*ast.SelectorExpr); ok {
+						if id, isId := sel.X.(*ast.Ident); isId {
+							if slot, isEl := elemAt[info.ObjectOf(id)]; isEl {
+								switch sel.Sel.Name {
+								case "myIdx":
+									if xs(rhs) == slot {
+										delete(d.points, slot)
+									} else {
+										d.points[slot] = true
+									}
+									continue
+								case "parent":
+									if !isIdentNamed(rhs, "this") {
+										d.points[slot] = true
+									}
+									continue
+								}
+							}
+						}
 						base := sel.X
 						if p, ok := base.(*ast.ParenExpr); ok {
 							base = p.X
